@@ -126,12 +126,12 @@ def _structures(tier):
     return out
 
 
-def _run_hpf(ir, n, miss, level_pos, change_pos, lam, log=False, span=None, values=None, lifted=True):
+def _run_hpf(ir, n, miss, level_pos, change_pos, lam, log=False, span=None, values=None, lifted=True, nvar=1):
     """returns dict(trend cells, gap cells, y symbols, level/change symbols, contract)"""
     if lifted:
-        x, ys = tagged(ir, _qq(0), n, 1, miss, "y", values=values)
+        x, ys = tagged(ir, _qq(0), n, nvar, miss, "y", values=values)
     else:
-        x, ys = float_series(ir, _qq(0), n, 1, miss, "y", values), {}
+        x, ys = float_series(ir, _qq(0), n, nvar, miss, "y", values), {}
     level = change = None
     ls, cs = {}, {}
     if level_pos:
@@ -148,34 +148,38 @@ def _run_hpf(ir, n, miss, level_pos, change_pos, lam, log=False, span=None, valu
     return dict(trend=cellmap(t), gap=cellmap(g), ys=ys, ls=ls, cs=cs, x=cellmap(x))
 
 
-def check_structure(run, ir, n, miss, level_pos, change_pos, lam):
-    key = f"kkt:n={n}:miss={list(miss)}:level@{list(level_pos)}:change@{list(change_pos)}:lambda={lam}"
-    case = dict(kind="kkt", n=n, miss=list(miss), level=list(level_pos), change=list(change_pos), lam=float(lam))
-    finding = "hpf:kkt"
+def check_structure(run, ir, n, miss, level_pos, change_pos, lam, nvar=1):
+    """miss: positions missing in every variant, or (position, variant) pairs"""
+    key = f"kkt:n={n}:miss={list(miss)}:level@{list(level_pos)}:change@{list(change_pos)}:lambda={lam}" + (f":variants={nvar}" if nvar > 1 else "")
+    case = dict(kind="kkt", n=n, miss=[list(m) if isinstance(m, tuple) else m for m in miss], level=list(level_pos), change=list(change_pos), lam=float(lam), nvar=nvar)
+    finding = "hpf:kkt" if nvar == 1 else "hpf:kkt:variants"
     with Lift() as L, S.Path() as path:
-        r = _run_hpf(ir, n, miss, level_pos, change_pos, lam)
+        r = _run_hpf(ir, n, miss, level_pos, change_pos, lam, nvar=nvar)
     syms = {**r["ys"], **r["ls"], **r["cs"]}
     names = sorted(syms)
-    tau = [r["trend"].get((B0 + i, 0)) for i in range(n)]
-    if any(t is None for t in tau):
-        run.counterexample(key, finding, "trend has missing cells inside the filter span", dict(case, values={}))
-        return
-    obs = [i not in miss for i in range(n)]
-    y = [syms[f"y{i}v0"][2] if obs[i] else None for i in range(n)]
-    level = [(j, syms[f"L{j}v0"][2]) for j in level_pos]
-    change = [(j, syms[f"C{j}v0"][2]) for j in change_pos if j != 0]
-    claims = _kkt_claims(n, S.float_fraction(float(lam)), obs, y, tau, level, change)
-    # trend + gap = data where observed; gap missing elsewhere
-    for i in range(n):
-        gcell = r["gap"].get((B0 + i, 0))
-        if obs[i]:
-            if gcell is None:
-                run.counterexample(key, "hpf:gap", f"gap missing at observed period {i}", dict(case, values={}))
-                return
-            claims.append((f"trend+gap=data @{i}", tau[i] + gcell - y[i]))
-        elif gcell is not None:
-            run.counterexample(key, "hpf:gap", f"gap defined at unobserved period {i}", dict(case, values={}))
+    claims = []
+    for v in range(nvar):
+        tau = [r["trend"].get((B0 + i, v)) for i in range(n)]
+        if any(t is None for t in tau):
+            run.counterexample(key, finding, f"trend has missing cells inside the filter span (variant {v})", dict(case, values={}))
             return
+        obs = [(i not in miss and (i, v) not in miss) for i in range(n)]
+        y = [syms[f"y{i}v{v}"][2] if obs[i] else None for i in range(n)]
+        level = [(j, syms[f"L{j}v0"][2]) for j in level_pos]
+        change = [(j, syms[f"C{j}v0"][2]) for j in change_pos if j != 0]
+        tagv = f" [variant {v}]" if nvar > 1 else ""
+        claims += [(labl + tagv, t) for labl, t in _kkt_claims(n, S.float_fraction(float(lam)), obs, y, tau, level, change)]
+        # trend + gap = data where observed; gap missing elsewhere
+        for i in range(n):
+            gcell = r["gap"].get((B0 + i, v))
+            if obs[i]:
+                if gcell is None:
+                    run.counterexample(key, "hpf:gap", f"gap missing at observed period {i}{tagv}", dict(case, values={}))
+                    return
+                claims.append((f"trend+gap=data @{i}{tagv}", tau[i] + gcell - y[i]))
+            elif gcell is not None:
+                run.counterexample(key, "hpf:gap", f"gap defined at unobserved period {i}{tagv}", dict(case, values={}))
+                return
     box = [z3.And(s[2].t >= -1, s[2].t <= 1) for s in syms.values()]
     assume = box + L.contract + [path.condition()]
     r0, _ = run.check_sat(assume, timeout_ms=30000)
@@ -333,7 +337,7 @@ def main(run):
     run.stubs += ["numpy.linalg.solve -> fresh trend and multipliers z with the contract F z = b (F concrete for concrete lambda)"]
     run.assumptions += ["objective: sum over observed (y-tau)^2 + lambda * sum (second differences)^2 (the standard HP objective; the docstring's formula has lambda on the other term, "
                         "which contradicts its own default-lambda table)", "cells are mathematical reals"]
-    run.outside += ["lonf (daqp QP solver: dual variables cannot be lifted) -- not claimed", "symbolic lambda", "multiple variants", "n > 7"]
+    run.outside += ["lonf (daqp QP solver: dual variables cannot be lifted) -- not claimed", "symbolic lambda", "more than 3 variants; per-variant level/change constraints (the code reads variant 0 of the constraint series only)", "n > 7"]
     lams = (10.0, 1600.0)
     for (n, miss, lv, ch) in _structures(run.tier):
         for lam in (lams if run.tier == "thorough" or (not lv and not ch) else lams[:1]):
@@ -343,6 +347,16 @@ def main(run):
                 run.unknown(f"kkt:{n}:{miss}:{lv}:{ch}", exc)
             except Exception as exc:
                 run.error(f"kkt:{n}:{miss}:{lv}:{ch}:{lam}", exc)
+    vstructs = [(5, (), (), (), 2), (5, ((1, 0),), (), (), 2), (5, ((2, 1),), (3,), (), 2), (4, ((1, 1), (2, 2)), (), (2,), 3)]
+    if run.tier == "thorough":
+        vstructs += [(6, (2, (1, 0), (3, 1)), (0, 5), (), 2), (5, ((1, 0), (3, 2)), (), (), 3), (7, ((3, 1),), (5,), (2,), 2)]
+    for (n, miss, lv, ch, nvar) in vstructs:
+        try:
+            check_structure(run, ir, n, miss, lv, ch, 10.0, nvar=nvar)
+        except S.SymbolicBranchError as exc:
+            run.unknown(f"kkt:{n}:{miss}:{lv}:{ch}:variants={nvar}", exc)
+        except Exception as exc:
+            run.error(f"kkt:{n}:{miss}:{lv}:{ch}:variants={nvar}", exc)
     for fn, args in ((check_line, (5, 10.0)), (check_line, (6, 1600.0)), (check_log, (4, (), (), 10.0)), (check_log, (5, (2,), (3,), 10.0)),
                      (check_span, (5, (), 10.0, (1, 3))), (check_span, (5, (2,), 10.0, (0, 6))), (check_span, (4, (), 1600.0, (-2, 2)))):
         try:
@@ -364,13 +378,16 @@ def replay(case):
         t = ir.hpf_trend(x, smooth=lam)
         err = np.abs(t.get_data().flatten() - x.get_data().flatten()).max()
         return err > 1e-7, f"max |trend - line| = {err!r}"
-    miss, level_pos, change_pos = tuple(case["miss"]), tuple(case["level"]), tuple(case["change"])
+    miss = tuple(tuple(m) if isinstance(m, list) else m for m in case["miss"])
+    level_pos, change_pos = tuple(case["level"]), tuple(case["change"])
+    nvar = int(case.get("nvar", 1))
     for i in range(n):
-        vals.setdefault(f"y{i}v0", 0.5 + 0.3 * ((i * 3) % 4))
+        for v in range(nvar):
+            vals.setdefault(f"y{i}v{v}", 0.5 + 0.3 * ((i * 3 + v) % 4))
         vals.setdefault(f"L{i}v0", 0.4)
         vals.setdefault(f"C{i}v0", 0.1)
     log = case["kind"] == "log"
-    r = _run_hpf(ir, n, miss, level_pos, change_pos, lam, log=log, values=vals, lifted=False)
+    r = _run_hpf(ir, n, miss, level_pos, change_pos, lam, log=log, values=vals, lifted=False, nvar=nvar)
     if case["kind"] == "span":
         part = _run_hpf(ir, n, miss, (), (), lam, span=tuple(case["span"]), values=vals, lifted=False)
         worst = 0.0
@@ -382,22 +399,23 @@ def replay(case):
         missing = [k for k in range(lo, hi + 1) if (B0 + k, 0) not in part["trend"]]
         return worst > 1e-7 or bool(missing), f"max difference on common periods {worst!r}; trend missing at {missing}"
     f = (lambda v: math.log(v)) if log else (lambda v: v)
-    tau = [f(r["trend"][(B0 + i, 0)]) for i in range(n)]
-    obs = [i not in miss for i in range(n)]
-    y = [f(vals[f"y{i}v0"]) if obs[i] else None for i in range(n)]
-    level = [(j, f(vals[f"L{j}v0"])) for j in level_pos]
-    change = [(j, f(vals[f"C{j}v0"])) for j in change_pos if j != 0]
-    claims = _kkt_claims(n, lam, obs, y, tau, level, change)
     worst, msg = 0.0, "KKT conditions hold"
-    for labl, t in claims:
-        if abs(float(t)) > worst:
-            worst, msg = abs(float(t)), f"{labl}: {float(t)!r}"
-    for i in range(n):
-        if obs[i]:
-            g = r["gap"].get((B0 + i, 0))
-            e = abs(r["trend"][(B0 + i, 0)] * g - vals[f"y{i}v0"]) if log else abs(r["trend"][(B0 + i, 0)] + g - vals[f"y{i}v0"])
-            if e > worst:
-                worst, msg = e, f"trend/gap/data @{i}: {e!r}"
+    for v in range(nvar):
+        tau = [f(r["trend"][(B0 + i, v)]) for i in range(n)]
+        obs = [(i not in miss and (i, v) not in miss) for i in range(n)]
+        y = [f(vals[f"y{i}v{v}"]) if obs[i] else None for i in range(n)]
+        level = [(j, f(vals[f"L{j}v0"])) for j in level_pos]
+        change = [(j, f(vals[f"C{j}v0"])) for j in change_pos if j != 0]
+        claims = _kkt_claims(n, lam, obs, y, tau, level, change)
+        for labl, t in claims:
+            if abs(float(t)) > worst:
+                worst, msg = abs(float(t)), f"{labl} [variant {v}]: {float(t)!r}"
+        for i in range(n):
+            if obs[i]:
+                g = r["gap"].get((B0 + i, v))
+                e = abs(r["trend"][(B0 + i, v)] * g - vals[f"y{i}v{v}"]) if log else abs(r["trend"][(B0 + i, v)] + g - vals[f"y{i}v{v}"])
+                if e > worst:
+                    worst, msg = e, f"trend/gap/data @{i} [variant {v}]: {e!r}"
     return worst > 1e-6, msg
 
 
